@@ -185,6 +185,9 @@ def run_C02(run):
     # (5b) predicates that are two-step descendant/child paths (descendant-over-descendant inside a predicate)
     run.gen_and_replay("MC_Expr", consts(BASE_EXPR, Family="C02desc2", MaxNodes=4 if q else 5, UseCat=True, CatIds=SMALL_CAT if q else ALL_CAT),
                        name="preds-two-step-paths", kind="sel-set")
+    # (5c) a predicate-carrying step continued by a further step on every axis (and through '//')
+    run.gen_and_replay("MC_Expr", consts(BASE_EXPR, Family="C02cont", MaxNodes=1 if q else 4, UseCat=True, CatIds={3, 5} if q else ALL_CAT),
+                       name="preds-then-steps", kind="sel-set")
     # (6) Flow B: seeded documents up to 14 nodes, paths of up to 3 steps carrying up to 3 predicates of nesting depth 2
     tr = run.drive("preds", 2500 if q else 40000, extra=["-nodes", "14"])
     run.validate_batch(tr, "preds-flowB")
